@@ -9,7 +9,7 @@ ID = "C08"
 LEVEL = "exploration"
 TECHNIQUE = "exhaustive enumeration of sense buffers (response codes x valid bit x sense keys x all 65536 ASC/ASCQ pairs x all lengths 1..252 x filler bytes); construction, str(), print() and print_data must not raise and key/ASC/ASCQ are compared with SPC's positions extracted by the independent bit oracle"
 RULE = ("quick: all 65536 ASC/ASCQ pairs x response codes {70h,72h} (key 5) + {71h,73h} (key 6); 16 keys x 9 response codes {70-73,00,6F,74,7E,7F} "
-        "x valid bit x 64 ASC/ASCQ pairs; every length 1..252 x 9 response codes x filler {00,FF} (canonical tail) with and without print_data; "
+        "x valid bit x 64 ASC/ASCQ pairs; every length 1..252 x 9 response codes x filler {00,FF} (canonical tail) with and without print_data; all ordered pairs and triples of 12 sense buffers built in sequence and kept alive, each compared afterwards with what it reports alone; "
         "thorough: the full product 9 codes x 2 valid x 16 keys x 65536 pairs. Non-trivial = anything other than the all-zero 18-byte fixed "
         "buffer; distinct = distinct buffers (x print flag).")
 ASSUMPTIONS = [
@@ -79,6 +79,8 @@ def expected(buf):
 
 def run_case(case, obs=None):
     from pyscsi.pyscsi.scsi_sense import SCSICheckCondition
+    if case[0] == "seq":
+        return run_sequence(case[1])
     buf = bytes.fromhex(case[0]) if isinstance(case[0], str) else bytes(case[0])
     show = bool(case[1])
     tag = "%02x" % (buf[0] & 0x7F)
@@ -131,10 +133,45 @@ def replay(case):
     return run_case(case)
 
 
+SEQ_ALPHA = [make(c, v, k, a, q) for (c, v, k, a, q) in (
+    (0x70, 0, 5, 0x24, 0x00), (0x70, 1, 6, 0x29, 0x00), (0x70, 0, 2, 0x04, 0x01), (0x71, 0, 3, 0x11, 0x00), (0x71, 0, 1, 0x17, 0x00),
+    (0x72, 0, 6, 0x29, 0x01), (0x72, 0, 5, 0x20, 0x00), (0x72, 1, 0xB, 0x47, 0x00), (0x73, 0, 4, 0x44, 0x00), (0x73, 0, 7, 0x27, 0x00),
+    (0x7E, 0, 5, 0x24, 0x00), (0x70, 0, 0, 0x00, 0x00))]
+
+
+def observe_exc(e):
+    import contextlib
+    import io
+    sink = io.StringIO()
+    try:
+        with contextlib.redirect_stdout(sink):
+            text = str(e)
+            e.print_data()
+    except Exception as ex:   # noqa: BLE001
+        text = "raised " + type(ex).__name__
+    return (text, sink.getvalue(), tuple(sorted((k, v) for k, v in e.data.items())), getattr(e, "asc", None), getattr(e, "ascq", None),
+            bool(e.valid), e.response_code)
+
+
+def run_sequence(idxs):
+    """several errors alive at once: each must keep reporting its own buffer (what it reports when constructed alone)"""
+    from pyscsi.pyscsi.scsi_sense import SCSICheckCondition
+    solo = [observe_exc(SCSICheckCondition(bytearray(SEQ_ALPHA[i]))) for i in idxs]
+    live = [SCSICheckCondition(bytearray(SEQ_ALPHA[i])) for i in idxs]
+    out = []
+    for pos, (i, e) in enumerate(zip(idxs, live)):
+        now = observe_exc(e)
+        if now != solo[pos]:
+            out.append(("sequence/earlier_error_changed", "errors built from %r in this order: error %d reports %r, alone it reports %r"
+                        % ([SEQ_ALPHA[j][:4].hex() for j in idxs], pos, now[0], solo[pos][0])))
+    return out
+
+
 def partitions(tier):
     parts = [["pairs", c, hi] for c in (0x70, 0x71, 0x72, 0x73) for hi in range(0, 256, 16)]
     parts += [["keys", c] for c in CODES]
     parts += [["lengths", c] for c in CODES]
+    parts += [["sequences", i] for i in range(len(SEQ_ALPHA))]
     if bounds(tier)["full_product"]:
         parts += [["full", c, v, k] for c in CODES for v in (0, 1) for k in range(16)]
     return parts
@@ -157,6 +194,23 @@ def run_partition(part, tier, seed):
         acc.outcome((obs[0][0] if obs else None, tuple(k for k, _ in v)))
 
     kind = part[0]
+    if kind == "sequences":
+        import itertools
+        first = part[1]
+        n = len(SEQ_ALPHA)
+        for rest in itertools.chain(itertools.product(range(n), repeat=1), itertools.product(range(n), repeat=2)):
+            idxs = [first] + list(rest)
+            case = ["seq", idxs]
+            acc.case(case, nontrivial=True, key=("seq", tuple(idxs)))
+            try:
+                v = run_sequence(idxs)
+            except Exception:
+                import traceback
+                v = [("harness_error", traceback.format_exc()[-500:])]
+            for k, w in v:
+                acc.violation(k, w, case)
+            acc.outcome(("seq", tuple(idxs), tuple(k for k, _ in v)))
+        return acc
     if kind == "pairs":
         _, c, hi = part
         key = 5 if c in (0x70, 0x72) else 6
